@@ -1,6 +1,6 @@
 (* C02 — Combine groups job outputs into an exact, ordered partition. *)
 From Coq Require Import Permutation Sorting.Sorted.
-From Pydra Require Import Base.Prelude Model.State Spec.State Proofs.State Proofs.StateComb Proofs.StateProj.
+From Pydra Require Import Base.Prelude Model.State Spec.State Proofs.State Proofs.StateComb Proofs.StateProj Proofs.StateClass.
 
 (* the property at full strength: for every well-formed splitter, every non-empty combiner subset of its fields
    and all non-empty lists, the groups the model of State.prepare_states computes are the reference partition *)
@@ -81,6 +81,40 @@ Proof.
   apply pruned_is_distinct; try assumption. apply linked_closed; assumption.
 Qed.
 Print Assumptions C02_partial_flat.
+
+(* a SYNTACTIC class on which the computable condition of C02_partial is proved for every size: flat outer products
+   [f1, f2, ..., fn] (n >= 2 distinct fields, the all-outer splitter in its flat spelling) with ANY non-empty
+   combiner over their fields.  For them the model of splits_groups/combine_final_groups yields exactly the combined
+   fields and the model of remove_inp_from_splitter_rpn returns the RPN of the remaining flat product (when the first
+   field is removed it is the most recently scanned surviving operator that is popped - which is the right one here,
+   and the wrong one for the F02 witness ['a',['b',('c','d')]], which is outside this class). *)
+Theorem C02_good_removal_class : forall (fs comb : list nat),
+  2 <= List.length fs -> NoDup fs -> comb <> [] -> (forall c, In c comb -> In c fs) ->
+  good_removalb (Outer (map Fld fs)) comb = true.
+Proof.
+  intros fs comb L N Hne Hsub. destruct fs as [|f1 [|f2 fs]]; cbn [List.length] in L; try lia.
+  exact (good_removal_flat_outer f1 f2 fs comb N Hne Hsub).
+Qed.
+Print Assumptions C02_good_removal_class.
+
+(* on that class the groups ARE the property's partition (first-appearance formulation), for all non-empty lists *)
+Theorem C02_class_groups : forall (e : env) (fs comb : list nat),
+  2 <= List.length fs -> NoDup fs -> comb <> [] -> (forall c, In c comb -> In c fs) ->
+  (forall f, In f fs -> nprod (e f) >= 1) ->
+  groups_of (prepare_combined e (Outer (map Fld fs)) comb) = spec_groups e (Outer (map Fld fs)) comb.
+Proof.
+  intros e fs comb L N Hne Hsub Pos. destruct fs as [|f1 [|f2 fs]]; cbn [List.length] in L; try lia.
+  exact (flat_outer_groups e f1 f2 fs comb N Hne Hsub Pos).
+Qed.
+Print Assumptions C02_class_groups.
+
+Example C02_class_example :
+  good_removalb (Outer (map Fld [3; 0; 2; 5; 1])) [2; 3; 1] = true /\
+  groups_of (prepare_combined (fun f => [S (Nat.modulo f 3)]) (Outer (map Fld [3; 0; 2; 5; 1])) [2; 3; 1]) =
+    Some [[0; 1; 6; 7; 12; 13]; [2; 3; 8; 9; 14; 15]; [4; 5; 10; 11; 16; 17]] /\
+  (* the F02 witness is not in the class and the condition fails there *)
+  good_removalb (Outer [Fld 0; Outer [Fld 1; Inner [Fld 2; Fld 3]]]) [0; 1] = false.
+Proof. repeat split; vm_compute; reflexivity. Qed.
 
 (* finding F02b: the declared nesting of the outputs (State.depth, used by nest_output_type) is computed from the
    combiner as written, not from the linked fields: for ([a,d],[c,b]) combined over a,b everything is combined
